@@ -130,6 +130,15 @@ func CheckPillarBalance(g *GenesisConfig) error {
 }
 func CheckTokenTotalSupply(g *GenesisConfig) error {
 	given := make(map[types.ZenonTokenStandard]*big.Int)
+	// every address gets one genesis block: a second entry for the same address would overwrite
+	// the balances of the first one while both are counted in the sums below
+	seen := make(map[types.Address]struct{})
+	for _, block := range g.GenesisBlocks.Blocks {
+		if _, ok := seen[block.Address]; ok {
+			return errors.Errorf("address %v has more than one entry in GenesisBlocks", block.Address)
+		}
+		seen[block.Address] = struct{}{}
+	}
 	for _, block := range g.GenesisBlocks.Blocks {
 		for zts, amount := range block.BalanceList {
 			total, ok := given[zts]
